@@ -194,6 +194,7 @@ def run(ctx):
         ctx.require(not extra, "S2", "consumers|" + fn, "consumers of %s on the seeded paths are the reviewed ones (%d)" % (fn.split("::")[-1], len(cons)), "unreviewed consumer(s) of the hash-ordered sequence returned by %s on a seeded path: %s" % (fn, extra))
 
     nonrandomised_order(ctx, prog, flows, effects, set(scope))
+    stored_order(ctx, prog, flows, effects)
 
     # ------------------------------------------------------------------ S4
     ctx.rule("S4", "no thread/time/address/environment input on the seeded paths")
@@ -363,3 +364,83 @@ def nonrandomised_order(ctx, prog, flows, effects, seeded_scope):
     for k in review:
         if k not in per_key:
             ctx.note("S8: reviewed entry `%s` no longer matches a site" % k)
+
+
+def stored_order(ctx, prog, flows, effects):
+    """S9 -- the same sentence, for the containers that live IN the graph object (`successors`, `predecessors`, `edges`:
+    std hash containers keyed per object): their order is the same on every call on one object, but differs between
+    two copies of the same graph and between processes, which the statement includes ("calls in different processes").
+    The traversal stores (`*_map`, `*_vec`) are position-keyed for that reason.  Every order-sensitive use of a stored
+    std-hash container that an algorithm can reach must be one of the reviewed ones, whose consumers only count, key
+    by name or sum; a new one -- a neighbour list taken from the name-keyed set, say -- makes breadth_first_search and
+    whatever else walks that list answer differently for the same graph."""
+    ctx.rule("S9", "no order-sensitive use of a std-hash container stored in the graph is reachable from the algorithms, unless reviewed (stored containers are keyed per object and per process)")
+    review = {}
+    try:
+        with open(os.path.join(VERIF, "rules", "hashord_review.json")) as f:
+            review = {e["key"]: e for e in json.load(f).get("entries_stored", [])}
+    except OSError:
+        pass
+    roots = [p for p, b in prog.bodies.items() if b.kind != "closure" and b.short.startswith("algorithms::")]
+    reach = set(prog.reachable_bodies(roots))
+
+    def rootof(p):
+        r = prog.bodies[p]
+        while r.kind == "closure":
+            r = prog.bodies[r.item["parent"]]
+        return r.path
+
+    bodies = sorted(p for p in prog.bodies if rootof(p) in reach)
+    sites = hashord.find_sites(prog, flows, effects, bodies=bodies)
+    per_key = {}
+    for s in sites:
+        if not s.random or s.worst() != "ORDER":
+            continue
+        if _fresh_container(flows.of(s.body), s):
+            continue
+        gf = _graph_fields_of(flows.of(s.body), s)
+        if not gf:
+            continue  # a callee's result (the all-pairs map ..), the caller's argument: not a store of the graph
+        key = "%s|%s|%s" % (s.body.short, "+".join(sorted(gf)), s.container[0] + "<" + ",".join(s.container[1]) + ">")
+        per_key.setdefault(key, []).append(s)
+    for key, ss in sorted(per_key.items()):
+        r = review.get(key)
+        s = ss[0]
+        what = "; ".join(x[2] for s_ in ss for x in s_.consumers if x[1] == "ORDER")[:200]
+        if r is not None and r.get("verdict") == "safe" and len(ss) <= int(r.get("count", 1)):
+            ctx.ok("S9", key, "reviewed -- " + r["reason"][:300], loc_str(s.create.span))
+        else:
+            ctx.violation("S9", key, "%s lists the items of a std-hash container stored in the graph in an order-sensitive way (%s)%s: that order differs between two copies of the same graph and between processes, and it is reachable from the algorithms (a traversal that walks this list visits, and reports, the nodes in a different order for the same graph)" % (s.body.short, what, "" if r is None else " -- %d such uses, %d reviewed" % (len(ss), int(r.get("count", 1)))), loc_str(s.create.span))
+    ctx.floor("S9", "stored_order_sites", sum(len(v) for v in per_key.values()), 4)
+
+
+GRAPH_HASH_STORES = {"successors", "predecessors", "edges", "nodes_map"}
+
+
+def _graph_fields_of(fl, s):
+    """the std-hashed stores of Graph the iterated container of site `s` is (part of): points-to of the receiver of the
+    iteration call, and the Graph fields in its description"""
+    from graphrules import field_of
+
+    out = set()
+    t = s.create
+    if not getattr(t, "args", None):
+        return out
+    a = t.args[0]
+    try:
+        for o in fl._operand_pts(a):
+            f = field_of(o) if o[0] == "P" else None
+            if f in GRAPH_HASH_STORES:
+                out.add(f)
+    except Exception:
+        pass
+    try:
+        d = fmt_desc(panic.norm(fl.describe(a, depth=10)))
+        for f in GRAPH_HASH_STORES:
+            import re as _re
+
+            if _re.search(r"\.%s\b" % f, d):
+                out.add(f)
+    except Exception:
+        pass
+    return out
